@@ -2,7 +2,7 @@
 from .. import common, gen, evalcorr, oracles
 from . import base
 from .C09 import tree_paths, reference_graph, has_cycle, navigate, final_target
-from .C15 import permute
+from .C15 import permute, has_negative_key
 
 THEOREMS = ['C10_at_most_once', 'C10_memo_invariant', 'C10_same_object', 'C10_exactly_once', 'C10_wellformed_trees']
 
@@ -55,7 +55,7 @@ def judge(case):
     if kind != 'ok':
         # the permuted layout must fail the same way
         k2, _, _, _ = evaluate([gen.render(d) for d in case['perm']])
-        if k2 != kind:
+        if k2 != kind and not any(has_negative_key(d) for d in docs):
             return dict(texts=texts, reason='the outcome depends on the order of keys', original=kind, permuted=k2, permuted_texts=[gen.render(d) for d in case['perm']])
         return None
     nodes = tree_paths(root)
@@ -80,7 +80,10 @@ def judge(case):
                 continue
             if isinstance(b, evalcorr.Rec) and a is not b:
                 return dict(texts=texts, reason='a consumer got a different object than the result of the dynamic node', path=list(p), target=list(tq))
-    # layout independence
+    # layout independence (not for documents in which a negative key gives one list element two spellings: there the order
+    # of the entries of one mapping decides which value wins - permuting them is not meaning-preserving)
+    if any(has_negative_key(d) for d in docs):
+        return None
     k2, _, cfg2, calls2 = evaluate([gen.render(d) for d in case['perm']])
     if k2 != 'ok':
         return dict(texts=texts, reason='the outcome depends on the order of keys', original='ok', permuted=k2, permuted_texts=[gen.render(d) for d in case['perm']])
